@@ -189,6 +189,27 @@ def run(prop, seed, tier):
             if True:        # every accepted file is compiled in both tiers (a quick tier that skipped files missed fb11fe2)
                 for e in compile_cpp(sc, out, base) if os.path.exists(os.path.join(out, base + '.ppf.cpp')) else []:
                     fail('cpp-compile', text, 'accepted, but generated C++ does not compile: %s' % e)
+        # names that mean something else in a target language: whatever prophyc accepts must still be usable
+        for label, text in (('struct named like the endianness template parameter E of the generated C++', 'struct E { u8 a; };\nstruct S { E e; };\n'),
+                            ('member named like a C++ keyword', 'struct K { u8 class; };\n'),
+                            ('struct named like a Python keyword', 'struct def { u8 a; };\n')):
+            n += 1
+            base = 'r%d' % n
+            src = sc.write('%s.prophy' % base, text)
+            out = sc.path('ro%d' % n)
+            os.makedirs(out)
+            nodes, err, _ = lib.run_prophyc([src, '--python_out', out, '--cpp_out', out, '--cpp_full_out', out, '--quiet'])
+            cases += 1
+            if err is not None:
+                continue            # rejected with a diagnostic: fine
+            problems = []
+            try:
+                lib.import_generated(out, base)
+            except Exception as ex:
+                problems.append('the Python module does not import: %r' % ex)
+            problems += ['C++ does not compile: %s' % e for e in compile_cpp(sc, out, base)]
+            if problems:
+                fail('reserved-name:' + label, text, 'accepted (%s), but %s' % (label, '; '.join(problems)[:600]))
     return {'cases': cases, 'distinct': cases, 'failures': failures, 'domain': DOMAIN,
             'bound': '%d prophy + %d isar rule breakers, %d valid files (one with a sampled family of structs)' % (len(BREAKERS), len(ISAR_BREAKERS), len(valid))}
 
